@@ -186,6 +186,24 @@ theorem bytesField_marshal (b rest : Bytes) (h : Small b) :
   have t2 : uvarLen b.length + b.length - uvarLen b.length = b.length := by omega
   rw [t2, List.take_left]
 
+theorem rpcString_marshal (b rest : Bytes) (h : Small b) :
+    rpcString (marshalBytes b ++ rest) = .ok ((marshalBytes b).length, b) := by
+  unfold rpcString
+  split
+  · have hv : b.length < two64 := by unfold Small at h; simp only [two63, two64] at *; omega
+    have hassoc : marshalBytes b ++ rest = marshalUvarint b.length ++ (b ++ rest) := by
+      simp [marshalBytes, List.append_assoc]
+    have hu : uvarint (marshalBytes b ++ rest) = .ok (uvarLen b.length, b.length) := by
+      rw [hassoc]; exact uvarint_roundtrip _ _ hv
+    have hlen : (marshalBytes b ++ rest).length = uvarLen b.length + b.length + rest.length := by
+      simp [marshalBytes_length]
+    rw [hu]
+    simp only [hlen]
+    have : ¬ b.length > uvarLen b.length + b.length + rest.length - uvarLen b.length := by omega
+    rw [if_neg this]
+    exact bytesField_marshal b rest h
+  · exact bytesField_marshal b rest h
+
 theorem drop_marshalBytes (b rest : Bytes) : (marshalBytes b ++ rest).drop (marshalBytes b).length = rest :=
   List.drop_left
 
@@ -262,11 +280,11 @@ theorem decodeEvent_encode (e : WEvent) (rest : Bytes) (h : e.WF) :
   unfold decodeEvent
   rw [u64_be _ _ h.ts]
   simp only [drop_add, drop_be]
-  rw [bytesField_marshal _ _ h.msg]
+  rw [rpcString_marshal _ _ h.msg]
   simp only [drop_marshalBytes]
-  rw [bytesField_marshal _ _ h.tags]
+  rw [rpcString_marshal _ _ h.tags]
   simp only [drop_marshalBytes]
-  rw [bytesField_marshal _ _ h.fields]
+  rw [rpcString_marshal _ _ h.fields]
 
 theorem drop_encodeEvent (e : WEvent) (rest : Bytes) : (encodeEvent e ++ rest).drop (encodeEvent e).length = rest :=
   List.drop_left
@@ -309,9 +327,9 @@ theorem wpInit_encode (parseKV : Bytes → Option Bytes) (tags flds wf : Bytes) 
     ∃ it, wpInit parseKV (wpEncode tags flds evs) = .ok it ∧ it.tags = tags ∧ it.flds = wf ∧
       it.rest = encodeEvents evs ∧ it.recs = evs.length % two32 ∧ it.cur = 0 ∧ it.read = false := by
   unfold wpInit wpEncode
-  rw [bytesField_marshal _ _ ht]
+  rw [rpcString_marshal _ _ ht]
   simp only [drop_marshalBytes]
-  rw [bytesField_marshal _ _ hf]
+  rw [rpcString_marshal _ _ hf]
   simp only [drop_add, drop_marshalBytes]
   rw [u32_be _ _ (Nat.mod_lt _ (by decide))]
   simp only [hp, drop_be]
